@@ -12,6 +12,7 @@ import (
 	"sync"
 	"sync/atomic"
 	"syscall"
+	"time"
 
 	"github.com/coredhcp/coredhcp/handler"
 	"github.com/insomniacslk/dhcp/dhcpv4"
@@ -411,7 +412,14 @@ func runOne4(c *CfgCase, h handler.Handler4, wire []byte, i int) (v *core.Violat
 	if !ok {
 		return nil
 	}
-	out, _ := h(req, stub)
+	var out *dhcpv4.DHCPv4
+	returned, pan := core.Call(20*time.Second, func() { out, _ = h(req, stub) })
+	if pan != nil {
+		panic(pan)
+	}
+	if !returned {
+		return core.Violate("C19/"+c.Plugin+"/v4/accepted-config-handler-never-returns", "args %q accepted by setup; request #%d: the handler did not return within 20 s", c.Args, i)
+	}
 	if out == nil {
 		return nil
 	}
@@ -447,7 +455,14 @@ func runOne6(c *CfgCase, h handler.Handler6, wire []byte, i int) (v *core.Violat
 	if !ok {
 		return nil
 	}
-	out, _ := h(req, stub)
+	var out dhcpv6.DHCPv6
+	returned, pan := core.Call(20*time.Second, func() { out, _ = h(req, stub) })
+	if pan != nil {
+		panic(pan)
+	}
+	if !returned {
+		return core.Violate("C19/"+c.Plugin+"/v6/accepted-config-handler-never-returns", "args %q accepted by setup; request #%d: the handler did not return within 20 s (a lock left behind by an earlier request?)", c.Args, i)
+	}
 	if out == nil {
 		return nil
 	}
